@@ -735,6 +735,101 @@ def handleMerge (partial_ : Bool) (inp out : Toks) : String :=
            else "ok merge-mixed")
     | _ => "bad output-shape"
 
+/-! ### long segments (op `long`)
+
+  A two- or three-vertex line whose segments take 10^4 … 2·2^z tile steps: the cover (up to millions
+  of tiles) is neither shipped nor modelled.  The harness builds it once and answers questions:
+  `… ; n <size> <entries that are false or of another zoom> ; v x y in ; s (x y in)* ; v x y in …`
+  — per vertex the tile `maptile.At` names and whether the cover holds it, per segment the tiles of the
+  points at the fractions `longFracs` between the two vertices' tile fractions.  Judged here, from the
+  shipped fractions (themselves checked against the model, `fracCheck`):
+  * `long-vertex-tile`: the tile named for a vertex is ⌊fraction⌋ (the model's `At` inside the domain);
+  * `long-vertex-missing`: every vertex's tile is in the cover;
+  * `long-sample-missing`: the tile of a sample point is in the cover — only samples at least 0.05
+    tile away from every tile edge are judged (the walk accumulates `tMax += tDelta` over millions of
+    steps: its crossings are exact to ~10^-3 tile at most);
+  * `long-cover-too-small`: size ≥ max over the segments of |Δcol| + |Δrow| + 1 (a connected walk from
+    the first tile of a segment to its last visits at least that many tiles);
+  * `long-bad-entry`: no entry with value false or another zoom. -/
+
+def longFracs : List Float := [0.25, 0.5, 0.75, 0.9, 0.99, 0.999]
+
+def triples : Toks → Option (List (Nat × Nat × Bool))
+  | [] => some []
+  | x :: y :: i :: rest => do
+    let x ← x.toNat?
+    let y ← y.toNat?
+    let r ← triples rest
+    pure ((x, y, i == "1") :: r)
+  | _ => none
+
+def handleLong (inp out : Toks) : String :=
+  match (do
+    let (z, i) ← nat inp
+    let (v, _) ← gval i
+    pure (z, v)) with
+  | some (z, .val g) =>
+    (match splitSemi out with
+    | fr :: lmt :: res :: rest =>
+      match pts fr, libmP lmt with
+      | none, _ => "bad fractions"
+      | _, none => "bad libm-table"
+      | some (fs, _), some (lm, _) =>
+        let ps := allPts g
+        if ps.length != fs.length || ps.length < 2 then "bad fraction-count" else
+        match fracCheck z ps fs lm with
+        | some d => "diff " ++ d
+        | none =>
+        if res == ["panic"] then "propfail panic" else
+        if res == ["err"] then "propfail long-error" else
+        if !(inDomain z fs) then "ok outside-domain" else
+        match res with
+        | ["n", size, bad] =>
+          let size := size.toNat?.getD 0
+          if bad != "0" then s!"propfail long-bad-entry {bad}" else
+          let ff : List (Float × Float) := fs.map fun f => (Float.ofBits f.x, Float.ofBits f.y)
+          let tile (f : Float × Float) : Nat × Nat := (f.1.floor.toUInt64.toNat, f.2.floor.toUInt64.toNat)
+          -- rest = v, s, v, s, …, v
+          let vs := rest.filter (·.head? == some "v")
+          let ss := rest.filter (·.head? == some "s")
+          if vs.length != ff.length || ss.length + 1 != ff.length then "bad long-shape" else
+          let vbad := (ff.zip vs).zipIdx.findSome? fun ((f, v), i) =>
+            match triples (v.drop 1) with
+            | some [(x, y, inn)] =>
+              if (x, y) != tile f then some s!"propfail long-vertex-tile vertex#{i} At {x} {y} floor {(tile f).1} {(tile f).2}"
+              else if !inn then some s!"propfail long-vertex-missing vertex#{i} tile {x} {y} size {size}"
+              else none
+            | _ => some "bad long-vertex"
+          match vbad with
+          | some m => m
+          | none =>
+          let segs := (ff.zip (ff.drop 1)).zip ss
+          let away (a : Float) : Bool := let r := a - a.floor; r ≥ 0.05 && r ≤ 0.95
+          let sbad := segs.zipIdx.findSome? fun (((a, b), s), i) =>
+            match triples (s.drop 1) with
+            | some l =>
+              if l.length != longFracs.length then some "bad long-samples" else
+              (longFracs.zip l).findSome? fun (t, (x, y, inn)) =>
+                let p := (a.1 + t * (b.1 - a.1), a.2 + t * (b.2 - a.2))
+                if !(away p.1 && away p.2) then none
+                else if (x, y) != tile p then some s!"bad long-sample-tile segment#{i}"
+                else if !inn then some s!"propfail long-sample-missing segment#{i} fraction {t} tile {x} {y} size {size}"
+                else none
+            | none => some "bad long-samples"
+          match sbad with
+          | some m => m
+          | none =>
+          let dist (a b : Nat) : Nat := if a ≥ b then a - b else b - a
+          let need := (ff.zip (ff.drop 1)).foldl (fun m (a, b) =>
+            let ta := tile a; let tb := tile b
+            max m (dist ta.1 tb.1 + dist ta.2 tb.2 + 1)) 0
+          if size < need then s!"propfail long-cover-too-small size {size} need {need}" else
+          let cls := if need > 1048576 then "-over-2^20" else if need > 65536 then "-over-2^16" else if need > 9000 then "-over-9000" else ""
+          s!"ok long{cls}"
+        | _ => "bad long-output"
+    | _ => "bad output-shape")
+  | _ => "bad input"
+
 def handle (ts : Toks) : String :=
   match ts with
   | op :: rest =>
@@ -742,6 +837,7 @@ def handle (ts : Toks) : String :=
     match op with
     | "cover" => handleCover inp out
     | "coll" => handleColl inp out
+    | "long" => handleLong inp out
     | "merge" => handleMerge false inp out
     | "mergep" => handleMerge true inp out
     | _ => "bad op " ++ op
